@@ -869,7 +869,13 @@ func init() {
 				if fileTmplFor(i) == pgen.NTemplates+7 {
 					vdr = "disable" // the pass-through skeleton needs VDR off
 				}
-				cases = append(cases, &flowCase{Index: i, Seed: seed, Cfg: cfg, Vdr: vdr,
+				var extra []string
+				if i%6 == 5 || i%12 == 1 {
+					// the metadata files (the top-level _outs among them) are archived
+					// into _metadata.zip on completion and restored by a later mrp
+					extra = []string{"--zip"}
+				}
+				cases = append(cases, &flowCase{Index: i, Seed: seed, Cfg: cfg, Vdr: vdr, ExtraArg: extra,
 					Reattach: i%4 == 1 || i%4 == 2, Template: tmpl,
 					Tweak: func(s *pgen.Spec) {
 						s.PMissingFile = 12
